@@ -7,7 +7,7 @@ use std::panic::{catch_unwind, AssertUnwindSafe};
 pub const OPS: &[&str] = &[
     "get_resolution", "deserialize", "serialize", "roundtrip", "cell_to_parent", "cell_to_children",
     "get_res0_cells", "is_first_child", "get_stride", "get_num_cells", "get_num_children", "uncompact",
-    "compact_cover", "compact_max", "compact_total", "uncompact_total", "order", "order_children", "reference", "purity", "curve_roundtrip", "hex", "hex_parse",
+    "compact_cover", "compact_max", "compact_total", "uncompact_total", "order", "order_children", "reference", "purity", "proj_history", "curve_roundtrip", "hex", "hex_parse",
     "lonlat_to_cell", "cell_to_lonlat", "cell_to_boundary", "cell_area",
     "pentagon_centre", "frame", "nearest_face", "boundary_geometry", "cell_area_measured", "reference_geo",
 ];
@@ -504,6 +504,40 @@ let (mut g, mut e) = (got.clone(), exp.clone());
             }
             if got.0 > 3 {
                 return Err(format!("anchor digit k = {}", got.0));
+            }
+            Ok(())
+        }
+        "proj_history" => {
+            // C13 (bounded replay of the memo contracts): DodecahedronProjection::inverse (public) returns the same answer from
+            // a fresh object and from one that has served other calls - for EVERY origin id, also ids outside the face table
+            // (defect F18: ids 12..23 aliased the slots of reflected triangles).  args: x, y in micro-units + 2_000_000, id
+            use a5::coordinate_systems::Face;
+            use a5::projections::dodecahedron::DodecahedronProjection;
+            let x = (pu64(&a[0]) as f64 - 2_000_000.0) / 1_000_000.0;
+            let y = (pu64(&a[1]) as f64 - 2_000_000.0) / 1_000_000.0;
+            let id = pu64(&a[2]) as u8;
+            let show = |r: &Result<a5::coordinate_systems::Spherical, String>| match r {
+                Ok(sp) => format!("Ok({:?})", sp),
+                Err(_) => "Err".to_string(),
+            };
+            let first = guard(|| {
+                let mut d = DodecahedronProjection::new().unwrap();
+                show(&d.inverse(Face::new(x, y), id))
+            })?;
+            let later = guard(|| {
+                let mut d = DodecahedronProjection::new().unwrap();
+                for o in 0..12u8 {
+                    for k in 0..10 {
+                        let g = (k as f64 + 0.5) * std::f64::consts::PI / 5.0;
+                        for rho in [0.3, 0.75] {
+                            let _ = d.inverse(Face::new(rho * g.cos(), rho * g.sin()), o);
+                        }
+                    }
+                }
+                show(&d.inverse(Face::new(x, y), id))
+            })?;
+            if first != later {
+                return Err(format!("DodecahedronProjection::inverse(Face({}, {}), {}) = {} as the first call of a fresh projection, {} after other calls", x, y, id, first, later));
             }
             Ok(())
         }
@@ -1441,6 +1475,21 @@ pub fn generate(op: &str, rng: &mut Rng, budget: u64, f: &mut dyn FnMut(Vec<Stri
                     return;
                 }
             }
+        }
+        "proj_history" => {
+            for id in (0..=40u64).chain([63, 127, 128, 200, 255]) {
+                for k in 0..10u64 {
+                    let g = (k as f64 + 0.37) * std::f64::consts::PI / 5.0;
+                    for rho in [0.05f64, 0.3, 0.6, 0.75] {
+                        let x = (rho * g.cos() * 1e6 + 2e6).round() as u64;
+                        let y = (rho * g.sin() * 1e6 + 2e6).round() as u64;
+                        if !f(vec![x.to_string(), y.to_string(), id.to_string()]) {
+                            return;
+                        }
+                    }
+                }
+            }
+            let _ = budget;
         }
         "purity" => {
             for k in 0..(1 + budget / 400) {
